@@ -1,5 +1,5 @@
 (** C09 (connection level) — proofs about Model/RangeConn.v *)
-From KV Require Import Bytes RustInt Range RangeProofs RangeConn.
+From KV Require Import Bytes RustInt Range RangeProofs DecProofs RangeConn.
 From Coq Require Import ZifyBool ZifyNat ZifyN.
 Open Scope N_scope.
 Arguments N.add : simpl never. Arguments N.sub : simpl never. Arguments N.mul : simpl never.
@@ -360,4 +360,55 @@ Proof.
   split; [eexists; split; [vm_compute; reflexivity|split; reflexivity]|].
   split; [eexists; split; [vm_compute; reflexivity|reflexivity]|].
   vm_compute. reflexivity.
+Qed.
+
+(** ---- tiling on the connection: consecutive ranged GETs reconstruct the representation ---- *)
+Lemma range_header_parses r :
+  fst r <= u64_max -> snd r <= u64_max -> parse_range (range_header r) = Some r.
+Proof.
+  intros Ha Hc. destruct r as [a c]. cbn [fst snd] in *. apply parse_range_syntax.
+  exists (dec a), (dec c). split; [reflexivity|].
+  split; apply parse_u64_number; apply parse_u64_dec; assumption.
+Qed.
+
+Lemma tile_ranges_bounds start ws :
+  Forall (fun w => 0 < w) ws ->
+  Forall (fun r => fst r <= snd r /\ snd r < start + sumN ws) (tile_ranges start ws).
+Proof.
+  intros Hw. revert start. induction Hw as [|w rest Hw Hrest IH]; intros start; cbn [tile_ranges sumN]; constructor.
+  - cbn [fst snd]. lia.
+  - specialize (IH (start + w)). eapply Forall_impl; [|exact IH].
+    intros r [H1 H2]. split; [exact H1|lia].
+Qed.
+
+Lemma tiling_history_bodies caching pg stored ae l :
+  Forall (fun r => fst r <= snd r /\ snd r <= u64_max) l ->
+  map wbody (history_spec caching 200 pg stored (map (get_range ae) l))
+  = map (fun r => reply_body (range_spec (Some r) (rp_body (choose pg ae)))) l.
+Proof.
+  intros Hl. revert stored. induction Hl as [|r rest [Hr1 Hr2] Hrest IH]; intros stored; [reflexivity|].
+  cbn [map history_spec]. rewrite IH. f_equal.
+  unfold reply_spec, answers_304, rejected, fresh, wire_spec, rq_range, get_range.
+  cbn [rq_method rq_ae rq_ranges rq_ims rev app hd_error header_range].
+  rewrite range_header_parses by lia. destruct r as [a c]. cbn [fst snd] in *.
+  replace (c <? a) with false by lia.
+  replace (0 =? 1) with false by reflexivity. rewrite Bool.andb_false_r.
+  rewrite range_spec_st_200.
+  destruct (range_spec (Some (a, c)) (rp_body (choose pg ae))) as [|g]; reflexivity.
+Qed.
+
+Lemma conn_tiling checked caching pg cache ae ws :
+  page_fits pg -> cache_ok pg cache ->
+  Forall (fun w => 0 < w) ws -> sumN ws = N.of_nat (length (rp_body (choose pg ae))) ->
+  exists replies,
+    serve_history checked caching 200 pg cache (map (get_range ae) (tile_ranges 0 ws)) = Ok replies /\
+    concat (map wbody replies) = rp_body (choose pg ae).
+Proof.
+  intros Hf Hc Hw Hsum. eexists. split.
+  - apply serve_history_spec; [assumption|assumption|discriminate].
+  - rewrite tiling_history_bodies.
+    + apply tiling; assumption.
+    + pose proof (choose_fits pg ae Hf) as Hfit.
+      eapply Forall_impl; [|exact (tile_ranges_bounds 0 ws Hw)].
+      intros r [H1 H2]. split; [exact H1|lia].
 Qed.
